@@ -324,6 +324,8 @@ struct LexerState {
 struct Captures {
     capture_list: Vec<(String, Vec<u8>)>,
     capture_map: HashMap<String, Vec<u8>>,
+    // for every entry of capture_list, the index of the row that was being built when it was added
+    capture_rows: Vec<usize>,
 }
 
 impl Captures {
@@ -331,10 +333,28 @@ impl Captures {
         Captures {
             capture_list: vec![],
             capture_map: HashMap::default(),
+            capture_rows: vec![],
         }
     }
 
-    fn push(&mut self, cap: (String, Vec<u8>)) {
+    // drop the captures added while building rows that no longer exist (after rollback)
+    fn truncate_rows(&mut self, num_rows: usize) {
+        let keep = self
+            .capture_rows
+            .iter()
+            .position(|&r| r >= num_rows)
+            .unwrap_or(self.capture_rows.len());
+        if keep < self.capture_list.len() {
+            self.capture_list.truncate(keep);
+            self.capture_rows.truncate(keep);
+            self.capture_map.clear();
+            for (name, bytes) in &self.capture_list {
+                self.capture_map.insert(name.clone(), bytes.clone());
+            }
+        }
+    }
+
+    fn push(&mut self, cap: (String, Vec<u8>), row_idx: usize) {
         let (name, bytes) = cap;
         // in Guidance, the __LIST_APPEND: ones are supposed to be appended not overwritten
         if !name.starts_with("__LIST_APPEND:") {
@@ -345,6 +365,7 @@ impl Captures {
             }
         }
         self.capture_list.push((name.clone(), bytes.clone()));
+        self.capture_rows.push(row_idx);
         self.capture_map.insert(name, bytes);
     }
 }
@@ -1026,6 +1047,12 @@ impl ParserState {
         self.lexer_stack.truncate(new_len + 1);
 
         self.row_infos.truncate(self.num_rows());
+        // the lexeme scanned from the last remaining row is gone as well
+        // (it would otherwise become part of the next capture that spans this row)
+        if let Some(ri) = self.row_infos.last_mut() {
+            ri.lexeme = Lexeme::bogus();
+        }
+        self.captures.truncate_rows(self.num_rows());
         self.token_idx = *self.byte_to_token_idx.last().unwrap_or(&0) as usize;
         self.last_force_bytes_len = usize::MAX;
         self.lexer_stack_top_eos = false;
@@ -1899,7 +1926,7 @@ impl ParserState {
 
         if let Some(var_name) = sym_data.props.stop_capture_name.as_ref() {
             let bytes = lexeme.hidden_bytes();
-            self.captures.push(self.mk_capture(var_name, bytes));
+            self.captures.push(self.mk_capture(var_name, bytes), curr_idx);
         }
 
         if let Some(var_name) = sym_data.props.capture_name.as_ref() {
@@ -1914,7 +1941,7 @@ impl ParserState {
             if is_lexeme || capture_start < curr_idx {
                 bytes.extend_from_slice(lexeme.upper_visible_bytes(is_lexeme));
             }
-            self.captures.push(self.mk_capture(var_name, &bytes));
+            self.captures.push(self.mk_capture(var_name, &bytes), curr_idx);
         }
     }
 
@@ -2052,7 +2079,7 @@ impl ParserState {
                         if let Some(var_name) = &sym_data.props.capture_name {
                             // nullable capture
                             debug!("      capture: {} NULL", var_name);
-                            self.captures.push((var_name.clone(), vec![]));
+                            self.captures.push((var_name.clone(), vec![]), curr_idx);
                         }
                     }
                 }
